@@ -42,6 +42,10 @@ pub enum Mode {
     /// long haul: a small non-terminating loop runs without event recording and the flag is raised from inside at
     /// top-level instruction k (thousands to hundreds of thousands of instructions into the run)
     Long { k: u64 },
+    /// a function that never returns by itself is called in condition position (`if spin`, `while spin`,
+    /// `r = not spin`); the flag is raised from inside after `k` decorated invocations. The call runs inside the
+    /// instruction in flight - that instruction, and with it the run, must still end promptly
+    Spin { k: u64, shape: u8 },
 }
 
 #[derive(Serialize, Deserialize, Clone, Debug, PartialEq)]
@@ -502,6 +506,83 @@ fn mode_long(k: u64, env: &WorkerEnv) -> (Verdict, Vec<Event>, BTreeMap<String, 
     (verdict, log, fired, probes)
 }
 
+struct SpinObs {
+    flag: Arc<AtomicBool>,
+    at_step: u64,
+    raised: bool,
+    after_any: std::rc::Rc<std::cell::Cell<u64>>,
+    after_d0: std::rc::Rc<std::cell::Cell<u64>>,
+}
+
+impl Observer for SpinObs {
+    fn on_start(&mut self, core: &mut Core, info: &StartInfo, _v: &mut HashMap<String, String>, _s: &mut HashMap<String, StateValue>, e: &mut Env) -> Option<CommandResult> {
+        if self.raised {
+            self.after_any.set(self.after_any.get() + 1);
+            if info.d0_index.is_some() {
+                self.after_d0.set(self.after_d0.get() + 1);
+            }
+        } else if core.steps >= self.at_step && info.depth >= 1 {
+            self.raised = true;
+            *core.fired.entry("F6".to_string()).or_insert(0) += 1;
+            self.flag.store(true, Ordering::SeqCst);
+            e.halt.store(true, Ordering::SeqCst);
+        }
+        None
+    }
+    fn on_end(&mut self, _c: &mut Core, _i: &StartInfo, _r: &mut CommandResult, _v: &mut HashMap<String, String>, _s: &mut HashMap<String, StateValue>, _e: &mut Env) {}
+}
+
+fn spin_text(shape: u8) -> String {
+    let head = "fn spin\n    while true\n        x = set 1\n    end\nend\n";
+    match shape {
+        0 => format!("{}if spin\n    y = set 2\nend\nz = set 3\n", head),
+        1 => format!("{}while spin\n    y = set 2\nend\nz = set 3\n", head),
+        _ => format!("{}r = not spin\nz = set 3\n", head),
+    }
+}
+
+fn mode_spin(k: u64, shape: u8) -> (Verdict, Vec<Event>, BTreeMap<String, u64>, BTreeMap<String, u64>) {
+    let mut fired: BTreeMap<String, u64> = BTreeMap::new();
+    let mut probes: BTreeMap<String, u64> = BTreeMap::new();
+    let flag = Arc::new(AtomicBool::new(false));
+    let after_any = std::rc::Rc::new(std::cell::Cell::new(0u64));
+    let after_d0 = std::rc::Rc::new(std::cell::Cell::new(0u64));
+    sim::reset(Some(Box::new(SpinObs { flag: flag.clone(), at_step: k, raised: false, after_any: after_any.clone(), after_d0: after_d0.clone() })));
+    const GRACE: u64 = 20_000;
+    sim::with_core(|c| {
+        c.budget = k + GRACE;
+        c.quiet = true;
+    });
+    let mut context = gen::sdk_context();
+    sim::decorate(&mut context.commands);
+    let text = spin_text(shape);
+    let res = std::panic::catch_unwind(std::panic::AssertUnwindSafe(|| duckscript::runner::run_script(&text, context, Some(sim::embedder_env(Some(flag.clone()))))));
+    let _ = sim::take_observer();
+    let (steps, budget_hit) = sim::with_core(|c| (c.steps, c.budget_hit));
+    *fired.entry("F6".to_string()).or_insert(0) += 1;
+    *probes.entry("halt-inside-a-condition-call-that-never-returns".to_string()).or_insert(0) += 1;
+    let log = vec![Event::Note { seq: 0, text: format!("spin: events not recorded; {} decorated invocations, flag raised after {}, shape {}", steps, k, shape) }];
+    let verdict = match res {
+        Err(_) => {
+            let p = sim::take_panic().unwrap_or_default();
+            Verdict::Fail { class: format!("panic@{}", sim::panic_site(&p)), detail: p }
+        }
+        Ok(end) => {
+            if budget_hit {
+                Verdict::Fail { class: "not-halted".to_string(), detail: format!("a function that loops for ever is running as the condition of the instruction in flight (shape {}); the flag was raised after {} invocations and {} more were started before the step limit ended the run - the script never terminates", shape, k, after_any.get()) }
+            } else if after_d0.get() > 0 {
+                Verdict::Fail { class: "start-after-halt".to_string(), detail: format!("spin (shape {}): {} top-level instructions were started after the flag", shape, after_d0.get()) }
+            } else {
+                match end {
+                    Ok(_) => Verdict::Pass,
+                    Err(e) => Verdict::Fail { class: "halted-run-failed".to_string(), detail: e.to_string() },
+                }
+            }
+        }
+    };
+    (verdict, log, fired, probes)
+}
+
 // ------------------------------------------------------------------ mode B (shuttle)
 
 fn yield_hook() {
@@ -725,11 +806,13 @@ impl Prop for C13 {
     fn runs(&self, tier: &str) -> u64 {
         if tier == "quick" { 6_000 } else { 60_000 }
     }
-    fn generate(&self, rng: &mut Rng, _avoid: &[String]) -> Value {
+    fn generate(&self, rng: &mut Rng, avoid: &[String]) -> Value {
         let mode_b = rng.chance(1, 4);
         let looping = rng.chance(1, 4);
         let program = gen_program(rng, looping);
-        let mode = if rng.chance(1, 250) {
+        let mode = if rng.chance(1, 300) && !avoid.iter().any(|a| a == "condition_call_never_returns") {
+            Mode::Spin { k: 10 + rng.below(3000), shape: rng.below(3) as u8 }
+        } else if rng.chance(1, 250) {
             // log-uniform between 10^3 and 5*10^5 instructions
             let e = 3.0 + (rng.below(2700) as f64) / 1000.0;
             Mode::Long { k: 10f64.powf(e) as u64 }
@@ -756,6 +839,7 @@ impl Prop for C13 {
             Mode::A { only } => mode_a(&case.program, env, only),
             Mode::B { sched, sched_seed, yields } => mode_b(&case.program, env, sched, *sched_seed, *yields),
             Mode::Long { k } => mode_long(*k, env),
+            Mode::Spin { k, shape } => mode_spin(*k, *shape),
         };
         ENV_KIND.with(|k| k.set(0));
         match case.env_kind {
